@@ -165,6 +165,25 @@ def run(ctx):
                         system.set_new_initial_state(qn, system.u0.copy(), t0=0.3, options=opts)
                         system.add(law)
                     system.assemble(options=opts)
+                    if c["history"] == "used_then_reset" and sup:
+                        # use the system away from its initial configuration (the joint turned forward, then back beyond its initial angle), then reset it
+                        from cardillo.math import Exp_SO3, Spurrier
+                        body = system.contributions_map["body"]
+                        A0 = np.asarray(pose[1], dtype=float)
+                        e = np.zeros(3); e[pose[2]] = 1.0
+                        for step in (0.3, 0.8, 0.2, -0.1, -0.35):
+                            qn = system.q0.copy()
+                            if c["sub"] == "Revolute":
+                                qn[body.qDOF[3:]] = Spurrier(A0 @ Exp_SO3(step * e))
+                            else:
+                                qn[body.qDOF[:3]] += step * np.array([0.5, -0.25, 1.0])
+                            un = np.zeros(system.nu)
+                            if c["law"] == "Maxwell":
+                                law.force(system.t0, qn[law.qDOF], un[law.uDOF])
+                            else:
+                                law.la_c(system.t0, qn[law.qDOF], un[law.uDOF])
+                            law.E_pot(system.t0, qn[law.qDOF])
+                        system.reset()
             except Exception as ex:
                 outcome = f"{type(ex).__name__}: {ex}"
             exp = "assembled" if st["err"] == "none" else "error"
